@@ -55,11 +55,13 @@ func NewBullyCoordinatorElector(
 func (bc *bullyCoordinatorElector) Coordinator(ctx context.Context, peers peer.IDSlice) (peer.ID, error) {
 	log.Info().Str("SessionID", bc.sessionID).Msgf("Starting bully process")
 
+	// the listener ranks the senders of incoming messages by sortedPeers: set it before the listener starts
+	bc.sortedPeers = util.SortPeersForSession(peers, bc.sessionID)
+
 	ctx, cancel := context.WithCancel(ctx)
 	go bc.listen(ctx)
 	defer cancel()
 
-	bc.sortedPeers = util.SortPeersForSession(peers, bc.sessionID)
 	errChan := make(chan error)
 	go bc.startBullyCoordination(errChan)
 
